@@ -396,6 +396,25 @@ def update_alert_source(sources):
     return ev
 
 
+def update_indexed_and_create(which):
+    """One descriptor transaction that changes an indexed attribute of an existing descriptor (ConditionSignaled / Source)
+    and creates a new descriptor: its report has an update part followed by a create part."""
+    def ev(p):
+        _need(p, NEW, present=False)
+        _need(p, CH)
+        _need(p, AS if which == 'cond-signaled' else AC)
+        if which == 'cond-signaled':
+            _need(p, AC2)
+        with p.mdib.descriptor_transaction() as tr:
+            if which == 'cond-signaled':
+                tr.get_descriptor(AS).ConditionSignaled = AC2
+            else:
+                tr.get_descriptor(AC).Source = [NUM2]
+            d = _mk_metric_descriptor(p, NEW, CH)
+            tr.add_descriptor(d, state_container=p.mdib.data_model.mk_state_container(d))
+    return ev
+
+
 def update_context_descriptor(p):
     _need(p, PAT)
     with p.mdib.descriptor_transaction() as tr:
@@ -536,6 +555,8 @@ EVENTS = [
     ('update-cond-signaled', update_condition_signaled(AC2)),
     ('update-alert-source', update_alert_source([NUM1, NUM2])),
     ('update-context-descr', update_context_descriptor),
+    ('update-cond-signaled+create-metric', update_indexed_and_create('cond-signaled')),
+    ('update-alert-source+create-metric', update_indexed_and_create('alert-source')),
     ('delete(NEW)', delete(NEW)),
     ('delete(N2)', delete(NUM2)),
     ('delete-entity(N1)', delete_entity(NUM1)),
